@@ -310,7 +310,7 @@ Section Simulation.
     unfold g_insert_new_node. cbn [g_docs g_stack g_keys g_anchors].
     assert (Han : Forall2 Qa (if (0 <? aid)%N then (aid, x) :: aa else aa) (if (0 <? aid)%N then (aid, y) :: ab else ab)).
     { destruct (0 <? aid)%N; [constructor; [split; [reflexivity|exact Hxy]|exact Ha]|exact Ha]. }
-    inversion Hs as [|[pa ia] [pb ib] ra rb [Hp Hi] Hr]; subst.
+    inversion Hs as [|fa fb ra rb Hf Hr]; subst; try destruct fa as [pa ia], fb as [pb ib], Hf as [Hp Hi].
     - cbn. repeat split; try assumption. constructor; [split; [exact Hxy|reflexivity]|constructor].
     - cbn [fst snd] in Hp, Hi. subst ib. rewrite <- (Q_kind pa pb Hp).
       destruct (o_kind OA pa) eqn:Ek.
@@ -321,10 +321,8 @@ Section Simulation.
         * cbn. repeat split; try assumption.
           -- constructor; [|exact Hr]. split; [|reflexivity]. cbn [fst]. apply Q_insert; assumption.
           -- constructor; [exact I|exact Hk'].
-        * cbn. repeat split; try assumption.
-          -- constructor; [split; [exact Hp|reflexivity]|exact Hr].
-          -- constructor; [exact Hxy|exact Hk'].
-      + cbn. repeat split; try assumption. constructor; [split; [exact Hp|reflexivity]|exact Hr].
+        * cbn. repeat split; try assumption. constructor; [exact Hxy|exact Hk'].
+      + cbn. repeat split; assumption.
   Qed.
 
   Lemma sim_event sa sb e : SR sa sb -> RR (g_on_event OA sa e) (g_on_event OB sb e).
@@ -333,7 +331,7 @@ Section Simulation.
     cbn [g_docs g_stack g_keys g_anchors] in Hd, Hs, Hk, Ha.
     destruct e as [ev sp]. destruct ev; cbn [g_on_event g_docs g_stack g_keys g_anchors]; try exact H.
     - (* DocumentEnd *)
-      inversion Hs as [|[pa ia] [pb ib] ra rb [Hp Hi] Hr]; subst.
+      inversion Hs as [|fa fb ra rb Hf Hr]; subst; try destruct fa as [pa ia], fb as [pb ib], Hf as [Hp Hi].
       + cbn. repeat split; try assumption. constructor; [apply Q_bad|exact Hd].
       + inversion Hr; subst; [|reflexivity].
         cbn. repeat split; try assumption. constructor; [exact Hp|exact Hd].
@@ -345,7 +343,7 @@ Section Simulation.
     - (* SequenceStart *)
       cbn. repeat split; try assumption. constructor; [split; [apply Q_seq|reflexivity]|exact Hs].
     - (* SequenceEnd *)
-      inversion Hs as [|[pa ia] [pb ib] ra rb [Hp Hi] Hr]; subst; [reflexivity|].
+      inversion Hs as [|fa fb ra rb Hf Hr]; subst; try destruct fa as [pa ia], fb as [pb ib], Hf as [Hp Hi]; [reflexivity|].
       cbn [fst snd] in Hp, Hi. subst ib. apply sim_insert; [|exact Hp].
       repeat split; assumption.
     - (* MappingStart *)
@@ -354,7 +352,7 @@ Section Simulation.
       + constructor; [exact I|exact Hk].
     - (* MappingEnd *)
       inversion Hk as [|oa ob ka' kb' Ho Hk']; subst; [reflexivity|].
-      inversion Hs as [|[pa ia] [pb ib] ra rb [Hp Hi] Hr]; subst; [reflexivity|].
+      inversion Hs as [|fa fb ra rb Hf Hr]; subst; try destruct fa as [pa ia], fb as [pb ib], Hf as [Hp Hi]; [reflexivity|].
       cbn [fst snd] in Hp, Hi. subst ib. apply sim_insert; [|exact Hp].
       repeat split; assumption.
   Qed.
@@ -371,3 +369,418 @@ Section Simulation.
   Lemma SR_g0 : SR g0 g0.
   Proof. repeat split; constructor. Qed.
 End Simulation.
+
+(* ---------------------------------------------------------------------------------------------- *)
+(* the map theory at ryaml                                                                        *)
+(* ---------------------------------------------------------------------------------------------- *)
+Ltac req := first [exact r_eqb_refl | exact r_eqb_sym | exact r_eqb_trans].
+Notation rleq := (leq ryaml r_eqb).
+
+Lemma R_ins_congr k k' v v' l l' :
+  r_eqb k k' = true -> r_eqb v v' = true -> rleq l l' -> rleq (lm_insert r_eqb k v l) (lm_insert r_eqb k' v' l').
+Proof. intros. apply ins_congr; try req; assumption. Qed.
+Lemma R_F_congr l l' : rleq l l' -> rleq (lm_collect r_eqb l) (lm_collect r_eqb l').
+Proof. intros. apply F_congr; try req; assumption. Qed.
+Lemma R_leq_trans a b c : rleq a b -> rleq b c -> rleq a c.
+Proof. intros. eapply leq_trans; try req; eassumption. Qed.
+Lemma R_leq_refl a : rleq a a.
+Proof. apply leq_refl; req. Qed.
+
+(* ---------------------------------------------------------------------------------------------- *)
+(* results as plain data                                                                          *)
+(* ---------------------------------------------------------------------------------------------- *)
+Definition gl_map {A B : Type} (f : A -> B) (s : gl A) : gl B :=
+  Build_gl (map f (g_docs s)) (map (fun x => (f (fst x), snd x)) (g_stack s))
+           (map (option_map f) (g_keys s)) (map (fun x => (fst x, f (snd x))) (g_anchors s)).
+Definition gres_map {A B : Type} (f : A -> B) (r : gres A) : gres B :=
+  match r with GOk s => GOk (gl_map f s) | GPanic n => GPanic n end.
+
+Lemma Forall2_impl {A B : Type} (P Q : A -> B -> Prop) :
+  (forall a b, P a b -> Q a b) -> forall l l', Forall2 P l l' -> Forall2 Q l l'.
+Proof. intros H l l'. induction 1; constructor; auto. Qed.
+
+Lemma Forall2_map_eq {A B : Type} (f : A -> B) l l' : Forall2 (fun a b => f a = b) l l' -> map f l = l'.
+Proof. induction 1 as [|a b l l' H _ IH]; [reflexivity|]. cbn [map]. rewrite H, IH. reflexivity. Qed.
+
+Lemma SR_functional {A B : Type} (f : A -> B) sa sb : SR A B (fun a b => f a = b) sa sb -> gl_map f sa = sb.
+Proof.
+  destruct sa as [da sa ka aa], sb as [db sb kb ab]. intros [Hd [Hs [Hk Ha]]].
+  cbn [g_docs g_stack g_keys g_anchors] in Hd, Hs, Hk, Ha. unfold gl_map. cbn [g_docs g_stack g_keys g_anchors].
+  f_equal.
+  - apply Forall2_map_eq; exact Hd.
+  - apply Forall2_map_eq. refine (Forall2_impl _ _ _ _ _ Hs). intros [a i] [b j] [H1 H2]. cbn [fst snd] in *. congruence.
+  - apply Forall2_map_eq. refine (Forall2_impl _ _ _ _ _ Hk). intros [a|] [b|] H; cbn in *; congruence || contradiction.
+  - apply Forall2_map_eq. refine (Forall2_impl _ _ _ _ _ Ha). intros [i a] [j b] [H1 H2]. cbn [fst snd] in *. congruence.
+Qed.
+
+Lemma RR_functional {A B : Type} (f : A -> B) ra rb : RR A B (fun a b => f a = b) ra rb -> gres_map f ra = rb.
+Proof.
+  destruct ra as [sa|n], rb as [sb|m]; cbn [RR gres_map]; try contradiction.
+  - intros H. f_equal. apply SR_functional; exact H.
+  - congruence.
+Qed.
+
+(* ---------------------------------------------------------------------------------------------- *)
+(* (i) marked = plain + spans                                                                     *)
+(* ---------------------------------------------------------------------------------------------- *)
+Lemma erase_pairs_app a b : erase_pairs (a ++ b) = erase_pairs a ++ erase_pairs b.
+Proof. induction a as [|[k v] a IH]; [reflexivity|]. cbn [app erase_pairs]. rewrite IH. reflexivity. Qed.
+
+Lemma erase_remove k l :
+  lm_remove r_eqb (erase k) (erase_pairs l) =
+  (option_map erase (fst (lm_remove m_eqb k l)), erase_pairs (snd (lm_remove m_eqb k l))).
+Proof.
+  induction l as [|[k' v'] r IH]; [reflexivity|].
+  cbn [erase_pairs lm_remove]. rewrite <- m_eqb_erase. destruct (m_eqb k k'); [reflexivity|].
+  rewrite IH. destruct (lm_remove m_eqb k r) as [o r']. reflexivity.
+Qed.
+
+Lemma erase_insert k v l :
+  erase_pairs (lm_insert m_eqb k v l) = lm_insert r_eqb (erase k) (erase v) (erase_pairs l).
+Proof.
+  unfold lm_insert. rewrite erase_remove. destruct (lm_remove m_eqb k l) as [[k0|] r]; cbn [fst snd option_map];
+    rewrite erase_pairs_app; reflexivity.
+Qed.
+
+Theorem marked_is_plain_with_spans early evs :
+  gres_map erase (load_m early evs) = load_r early evs.
+Proof.
+  apply RR_functional. unfold load_m, load_r. apply sim_load; [| | | | | | | |apply SR_g0].
+  - intros v st tg sp. cbn [m_ops r_ops o_scalar]. destruct early; [|reflexivity]. destruct (scalar_value v st tg); reflexivity.
+  - reflexivity.
+  - reflexivity.
+  - reflexivity.
+  - intros a b sp H. subst b. destruct a; reflexivity.
+  - intros a b H. subst b. destruct a; reflexivity.
+  - intros a b x y Ha Hx Hk. subst b y. destruct a; try discriminate Hk. cbn [m_ops r_ops o_push erase].
+    rewrite map_app. reflexivity.
+  - intros a b k k' v v' Ha Hk Hv Hkind. subst b k' v'. destruct a; try discriminate Hkind.
+    cbn [m_ops r_ops o_insert]. rewrite !erase_map, erase_insert. reflexivity.
+Qed.
+
+(* resolution commutes with forgetting the spans *)
+Lemma erase_collect l : erase_pairs (lm_collect m_eqb l) = lm_collect r_eqb (erase_pairs l).
+Proof.
+  induction l as [|[k v] l IH] using rev_ind; [reflexivity|].
+  rewrite erase_pairs_app. cbn [erase_pairs]. rewrite !F_snoc. unfold lm_ins. cbn [fst snd].
+  rewrite erase_insert, IH. reflexivity.
+Qed.
+
+Theorem erase_resolve : forall n, erase (m_resolve n) = r_resolve (erase n).
+Proof.
+  induction n as [sp v st tg|sp s|sp l IH|sp l IH|sp] using myaml_ind2; try reflexivity.
+  - cbn [m_resolve erase r_resolve]. destruct (scalar_value v st tg); reflexivity.
+  - cbn [m_resolve erase r_resolve]. f_equal. rewrite !map_map.
+    induction IH as [|x r Hx _ IHr]; [reflexivity|]. cbn [map]. rewrite Hx, IHr. reflexivity.
+  - rewrite m_resolve_map, !erase_map, r_resolve_map, erase_collect. do 2 f_equal.
+    induction IH as [|[k v] r [Hk Hv] _ IHr]; [reflexivity|]. cbn [fst snd] in Hk, Hv.
+    cbn [m_resolve_pairs erase_pairs resolve_pairs]. rewrite Hk, Hv, IHr. reflexivity.
+Qed.
+
+(* with_span only touches the root *)
+Lemma erase_with_span n sp : erase (with_span n sp) = erase n.
+Proof. destruct n; reflexivity. Qed.
+Lemma span_with_span n sp : span_of (with_span n sp) = sp.
+Proof. destruct n; reflexivity. Qed.
+
+(* ---------------------------------------------------------------------------------------------- *)
+(* the tie to the C07 loader model: Loader.load_events is the generic loader at `yaml`, and the    *)
+(* eager plain loader is its image under `embed`                                                  *)
+(* ---------------------------------------------------------------------------------------------- *)
+Definition to_gl (ld : loader) : gl yaml := Build_gl (l_docs ld) (l_stack ld) (l_keys ld) (l_anchors ld).
+Definition to_gres (r : lres) : gres yaml := match r with LOk ld => GOk (to_gl ld) | LPanic n => GPanic n end.
+
+Lemma g_get_amap id l : g_get id l = amap_get id l.
+Proof. induction l as [|[i y] r IH]; [reflexivity|]. cbn [g_get amap_get]. rewrite IH. reflexivity. Qed.
+
+Lemma y_insert_new_node ld n aid :
+  g_insert_new_node y_ops (to_gl ld) n aid = to_gres (insert_new_node ld n aid).
+Proof.
+  destruct ld as [d s ks m]. unfold g_insert_new_node, insert_new_node, to_gl.
+  cbn [g_docs g_stack g_keys g_anchors l_docs l_stack l_keys l_anchors].
+  destruct s as [|[[sc|items|pairs|] pa] rest]; try reflexivity.
+  cbn [y_ops o_kind y_kind]. destruct ks as [|[k|] ks']; reflexivity.
+Qed.
+
+Lemma y_on_event ld e sp : g_on_event y_ops (to_gl ld) (e, sp) = to_gres (on_event ld e).
+Proof.
+  destruct e; cbn [g_on_event on_event]; try reflexivity.
+  - destruct ld as [d s ks m]. cbn [to_gl g_stack l_stack]. destruct s as [|[n a] [|x r]]; reflexivity.
+  - rewrite <- y_insert_new_node. destruct ld as [d s ks m]. cbn [to_gl g_anchors l_anchors].
+    rewrite g_get_amap. destruct (amap_get id m); reflexivity.
+  - rewrite <- y_insert_new_node. reflexivity.
+  - destruct ld as [d s ks m]. cbn [to_gl g_stack l_stack g_docs g_keys g_anchors l_docs l_keys l_anchors].
+    destruct s as [|[n a] r]; [reflexivity|]. rewrite <- y_insert_new_node. reflexivity.
+  - destruct ld as [d s ks m]. cbn [to_gl g_stack l_stack g_docs g_keys g_anchors l_docs l_keys l_anchors].
+    destruct ks as [|k ks']; [destruct s as [|[n a] r]; reflexivity|].
+    destruct s as [|[n a] r]; [reflexivity|]. rewrite <- y_insert_new_node. reflexivity.
+Qed.
+
+Theorem loader_is_generic evs : forall ld,
+  g_load y_ops evs (to_gl ld) = to_gres (load_events (map fst evs) ld).
+Proof.
+  induction evs as [|[e sp] r IH]; intros ld; [reflexivity|].
+  cbn [g_load map fst load_events]. rewrite y_on_event. destruct (on_event ld e); cbn [to_gres]; [apply IH|reflexivity].
+Qed.
+
+Theorem yaml_eqb_embed : forall a b, yaml_eqb a b = r_eqb (embed a) (embed b).
+Proof.
+  induction a as [s|l IH|l IH|] using yaml_ind2; intros b; destruct b as [s'|l'|l'|]; try reflexivity.
+  - cbn [embed]. rewrite r_eqb_seq. cbn [yaml_eqb].
+    revert l'. induction IH as [|x r Hx _ IHr]; intros [|y r']; cbn [map r_eqb_list]; try reflexivity.
+    rewrite Hx, IHr. reflexivity.
+  - rewrite !embed_map, r_eqb_map. cbn [yaml_eqb].
+    revert l'. induction IH as [|[k v] r [Hk Hv] _ IHr]; intros [|[k' v'] r']; cbn [embed_pairs r_eqb_pairs]; try reflexivity.
+    cbn [fst snd] in Hk, Hv. rewrite Hk, Hv, IHr. reflexivity.
+Qed.
+
+Lemma embed_pairs_app a b : embed_pairs (a ++ b) = embed_pairs a ++ embed_pairs b.
+Proof. induction a as [|[k v] a IH]; [reflexivity|]. cbn [app embed_pairs]. rewrite IH. reflexivity. Qed.
+
+Lemma embed_remove k l :
+  lm_remove r_eqb (embed k) (embed_pairs l) =
+  (option_map embed (fst (remove_key k l)), embed_pairs (snd (remove_key k l))).
+Proof.
+  induction l as [|[k' v'] r IH]; [reflexivity|].
+  cbn [embed_pairs lm_remove remove_key]. rewrite <- yaml_eqb_embed. destruct (yaml_eqb k k'); [reflexivity|].
+  rewrite IH. destruct (remove_key k r) as [o r']. reflexivity.
+Qed.
+
+Lemma embed_insert k v l :
+  embed_pairs (map_insert k v l) = lm_insert r_eqb (embed k) (embed v) (embed_pairs l).
+Proof.
+  unfold lm_insert, map_insert. rewrite embed_remove. destruct (remove_key k l) as [[k0|] r]; cbn [fst snd option_map];
+    rewrite embed_pairs_app; reflexivity.
+Qed.
+
+Theorem eager_plain_is_loader_model evs :
+  load_r true evs = gres_map embed (to_gres (load_events (map fst evs) l0)).
+Proof.
+  rewrite <- loader_is_generic. symmetry. apply RR_functional. unfold load_r.
+  change (to_gl l0) with (@g0 yaml).
+  apply sim_load; [| | | | | | | |apply SR_g0].
+  - intros v st tg sp. cbn [y_ops r_ops o_scalar]. unfold value_of, scalar_value.
+    destruct (parse_from_cow_and_metadata v (is_plain st) (option_map (fun t => (tg_handle t, tg_suffix t)) tg)); reflexivity.
+  - reflexivity.
+  - reflexivity.
+  - reflexivity.
+  - intros a b sp H. exact H.
+  - intros a b H. subst b. destruct a; reflexivity.
+  - intros a b x y Ha Hx Hk. subst b y. destruct a; try discriminate Hk. cbn [y_ops r_ops o_push embed].
+    rewrite map_app. reflexivity.
+  - intros a b k k' v v' Ha Hk Hv Hkind. subst b k' v'. destruct a; try discriminate Hkind.
+    cbn [y_ops r_ops o_insert]. rewrite !embed_map, embed_insert. reflexivity.
+Qed.
+
+(* ---------------------------------------------------------------------------------------------- *)
+(* (ii) deferred loading, then resolving the whole tree = eager loading                           *)
+(* ---------------------------------------------------------------------------------------------- *)
+Lemma resolve_pairs_congr l : Forall (fun kv => (forall b, r_eqb (fst kv) b = true -> r_eqb (r_resolve (fst kv)) (r_resolve b) = true) /\
+                                               (forall b, r_eqb (snd kv) b = true -> r_eqb (r_resolve (snd kv)) (r_resolve b) = true)) l ->
+  forall l', rleq l l' -> rleq (resolve_pairs l) (resolve_pairs l').
+Proof.
+  induction 1 as [|[k v] r [Hk Hv] _ IH]; intros l' H; inversion H as [|p q l1 l2 [A B] C]; subst; [constructor|].
+  destruct q as [k' v']. cbn [fst snd] in *. cbn [resolve_pairs]. constructor; [split; cbn [fst snd]; auto|apply IH; exact C].
+Qed.
+
+Theorem r_resolve_congr : forall a b, r_eqb a b = true -> r_eqb (r_resolve a) (r_resolve b) = true.
+Proof.
+  induction a as [v st tg|s|l IH|l IH|] using ryaml_ind2; intros b H; destruct b as [v' st' tg'|s'|l'|l'|]; try discriminate H.
+  - cbn [r_eqb] in H. rewrite !andb_true_iff, pstr_eqb_eq, style_eqb_eq, otag_eqb_eq in H.
+    destruct H as [[A B] C]; subst. apply r_eqb_refl.
+  - exact H.
+  - rewrite r_eqb_seq in H. cbn [r_resolve]. rewrite r_eqb_seq.
+    revert l' H. induction IH as [|x r Hx _ IHr]; intros [|y r'] H; cbn [r_eqb_list] in H; try discriminate H; [reflexivity|].
+    apply andb_true_iff in H. destruct H as [A B]. cbn [map r_eqb_list]. rewrite (Hx y A), (IHr r' B). reflexivity.
+  - rewrite r_eqb_map in H. rewrite !r_resolve_map, r_eqb_map. apply r_eqb_pairs_leq.
+    apply R_F_congr. apply resolve_pairs_congr; [exact IH|]. apply r_eqb_pairs_leq; exact H.
+  - reflexivity.
+Qed.
+
+(* the relation between the deferred and the eager run *)
+Definition resolves_to (d e : ryaml) : Prop := r_eqb (r_resolve d) e = true.
+
+Theorem deferred_simulates_eager evs :
+  RR ryaml ryaml resolves_to (load_r false evs) (load_r true evs).
+Proof.
+  unfold load_r. apply sim_load; [| | | | | | | |apply SR_g0]; unfold resolves_to.
+  - intros v st tg sp. cbn [r_ops o_scalar r_resolve]. apply r_eqb_refl.
+  - reflexivity.
+  - reflexivity.
+  - reflexivity.
+  - intros a b sp H. exact H.
+  - intros a b H. destruct a as [v st tg|s|l|l|]; cbn [r_resolve] in H;
+      [destruct (scalar_value v st tg)| | | |]; destruct b; try discriminate H; reflexivity.
+  - intros a b x y Ha Hx Hk. destruct a as [| |l| |]; try discriminate Hk.
+    cbn [r_resolve] in Ha. destruct b as [| |l'| |]; try discriminate Ha.
+    cbn [r_ops o_push r_resolve]. rewrite r_eqb_seq in *. rewrite map_app. cbn [map].
+    apply r_eqb_list_forall2. apply Forall2_app; [apply r_eqb_list_forall2; exact Ha|].
+    constructor; [exact Hx|constructor].
+  - intros a b k k' v v' Ha Hk Hv Hkind. destruct a as [| | |l|]; try discriminate Hkind.
+    rewrite r_resolve_map in Ha. destruct b as [| | |l'|]; try discriminate Ha.
+    cbn [r_ops o_insert]. rewrite r_resolve_map, r_eqb_map in *. apply r_eqb_pairs_leq. apply r_eqb_pairs_leq in Ha.
+    rewrite resolve_pairs_map in *.
+    eapply R_leq_trans.
+    + apply (recollect_insert ryaml r_eqb r_eqb_refl r_eqb_sym r_eqb_trans r_resolve r_resolve_congr).
+    + apply R_ins_congr; assumption.
+Qed.
+
+Lemma Forall2_rev' {A B : Type} (P : A -> B -> Prop) l l' : Forall2 P l l' -> Forall2 P (rev l) (rev l').
+Proof. induction 1; cbn [rev]; [constructor|]. apply Forall2_app; [assumption|constructor; [assumption|constructor]]. Qed.
+
+Corollary deferred_then_resolved_is_eager evs :
+  match load_r false evs, load_r true evs with
+  | GOk d, GOk e => Forall2 resolves_to (rev (g_docs d)) (rev (g_docs e))
+  | GPanic n, GPanic m => n = m
+  | _, _ => False
+  end.
+Proof.
+  pose proof (deferred_simulates_eager evs) as H.
+  destruct (load_r false evs) as [d|n], (load_r true evs) as [e|m]; cbn [RR] in H; try contradiction; [|exact H].
+  destruct H as [Hd _]. apply Forall2_rev'. exact Hd.
+Qed.
+
+(* the same for marked nodes, spans included in the trees, compared through erase *)
+Corollary marked_deferred_then_resolved_is_eager evs :
+  match load_m false evs, load_m true evs with
+  | GOk d, GOk e => Forall2 (fun x y => m_eqb (m_resolve x) y = true) (rev (g_docs d)) (rev (g_docs e))
+  | GPanic n, GPanic m => n = m
+  | _, _ => False
+  end.
+Proof.
+  pose proof (deferred_then_resolved_is_eager evs) as H.
+  rewrite <- !marked_is_plain_with_spans in H.
+  destruct (load_m false evs) as [d|n], (load_m true evs) as [e|m]; cbn [gres_map] in H; try contradiction; [|exact H].
+  cbn [gl_map g_docs] in H. rewrite <- !map_rev in H.
+  revert H. generalize (rev (g_docs d)) (rev (g_docs e)). intros l l' H.
+  remember (map erase l) as a eqn:Ea. remember (map erase l') as b eqn:Eb.
+  revert l l' Ea Eb. induction H as [|x y a b Hxy _ IH]; intros [|p l] [|q l'] Ea Eb; try discriminate; [constructor|].
+  cbn [map] in Ea, Eb. inversion Ea; inversion Eb; subst. constructor; [|apply IH; reflexivity].
+  unfold resolves_to in Hxy. rewrite m_eqb_erase, erase_resolve. exact Hxy.
+Qed.
+
+(* ---------------------------------------------------------------------------------------------- *)
+(* (iii) resolution: results are resolved and well-formed; resolved well-formed trees are fixpoints *)
+(* ---------------------------------------------------------------------------------------------- *)
+Definition pairs_all (f : ryaml -> bool) : list (ryaml * ryaml) -> bool :=
+  fix go l := match l with [] => true | (k, v) :: r => f k && f v && go r end.
+Lemma r_wf_map l : r_wf (RMap l) = lm_nodupb r_eqb l && pairs_all r_wf l. Proof. reflexivity. Qed.
+Lemma r_resolved_map l : r_resolved (RMap l) = pairs_all r_resolved l. Proof. reflexivity. Qed.
+Lemma r_deferred_map l : r_deferred (RMap l) = pairs_all r_deferred l. Proof. reflexivity. Qed.
+
+Lemma pairs_all_allP f l : pairs_all f l = true <-> allP ryaml (fun n => f n = true) l.
+Proof.
+  induction l as [|[k v] r IH]; cbn [pairs_all].
+  - split; [constructor|reflexivity].
+  - rewrite !andb_true_iff, IH. split.
+    + intros [[A B] C]. constructor; [split; assumption|exact C].
+    + intros H; inversion H as [|? ? [A B] C]; subst. auto.
+Qed.
+
+Lemma pairs_all_insert f k v l :
+  pairs_all f l = true -> f k = true -> f v = true -> pairs_all f (lm_insert r_eqb k v l) = true.
+Proof. rewrite !pairs_all_allP. intros. apply allP_ins; assumption. Qed.
+Lemma pairs_all_collect f l : pairs_all f l = true -> pairs_all f (lm_collect r_eqb l) = true.
+Proof. rewrite !pairs_all_allP. intros. apply allP_F; assumption. Qed.
+
+Theorem r_resolve_wf : forall n, r_wf (r_resolve n) = true.
+Proof.
+  induction n as [v st tg|s|l IH|l IH|] using ryaml_ind2; try reflexivity.
+  - cbn [r_resolve]. destruct (scalar_value v st tg); reflexivity.
+  - cbn [r_resolve r_wf]. induction IH as [|x r Hx _ IHr]; [reflexivity|]. cbn [map forallb]. rewrite Hx, IHr. reflexivity.
+  - rewrite r_resolve_map, r_wf_map. apply andb_true_iff. split.
+    + apply nodupb_F; req.
+    + apply pairs_all_collect. induction IH as [|[k v] r [Hk Hv] _ IHr]; [reflexivity|].
+      cbn [fst snd] in Hk, Hv. cbn [resolve_pairs pairs_all]. rewrite Hk, Hv, IHr. reflexivity.
+Qed.
+
+Theorem r_resolve_resolved : forall n, r_resolved (r_resolve n) = true.
+Proof.
+  induction n as [v st tg|s|l IH|l IH|] using ryaml_ind2; try reflexivity.
+  - cbn [r_resolve]. destruct (scalar_value v st tg); reflexivity.
+  - cbn [r_resolve r_resolved]. induction IH as [|x r Hx _ IHr]; [reflexivity|]. cbn [map forallb]. rewrite Hx, IHr. reflexivity.
+  - rewrite r_resolve_map, r_resolved_map. apply pairs_all_collect.
+    induction IH as [|[k v] r [Hk Hv] _ IHr]; [reflexivity|].
+    cbn [fst snd] in Hk, Hv. cbn [resolve_pairs pairs_all]. rewrite Hk, Hv, IHr. reflexivity.
+Qed.
+
+Theorem r_resolve_id : forall n, r_resolved n = true -> r_wf n = true -> r_resolve n = n.
+Proof.
+  induction n as [v st tg|s|l IH|l IH|] using ryaml_ind2; intros Hr Hw; try reflexivity.
+  - discriminate Hr.
+  - cbn [r_resolve]. f_equal. cbn [r_resolved r_wf] in Hr, Hw.
+    induction IH as [|x r Hx _ IHr]; [reflexivity|]. cbn [forallb] in Hr, Hw.
+    apply andb_true_iff in Hr. apply andb_true_iff in Hw. destruct Hr as [R1 R2], Hw as [W1 W2].
+    cbn [map]. rewrite (Hx R1 W1), (IHr R2 W2). reflexivity.
+  - rewrite r_resolve_map. f_equal. rewrite r_resolved_map in Hr. rewrite r_wf_map in Hw.
+    apply andb_true_iff in Hw. destruct Hw as [Hn Hw].
+    assert (E : resolve_pairs l = l).
+    { clear Hn. induction IH as [|[k v] r [Hk Hv] _ IHr]; [reflexivity|]. cbn [fst snd] in Hk, Hv.
+      cbn [pairs_all] in Hr, Hw. rewrite !andb_true_iff in Hr, Hw. destruct Hr as [[R1 R2] R3], Hw as [[W1 W2] W3].
+      cbn [resolve_pairs]. rewrite (Hk R1 W1), (Hv R2 W2), (IHr R3 W3). reflexivity. }
+    rewrite E. apply F_nodup_id; try req. exact Hn.
+Qed.
+
+Corollary r_resolve_idempotent n : r_resolve (r_resolve n) = r_resolve n.
+Proof. apply r_resolve_id; [apply r_resolve_resolved|apply r_resolve_wf]. Qed.
+
+(* every node a load produces is well-formed (no two equal keys in any mapping) and, depending on the mode,
+   fully resolved or fully unresolved; hence resolving an eagerly loaded tree leaves it untouched *)
+Definition good (early : bool) (n : ryaml) : Prop :=
+  r_wf n = true /\ (if early then r_resolved n = true else r_deferred n = true).
+
+Lemma forallb_snoc {A : Type} (f : A -> bool) l x : forallb f l = true -> f x = true -> forallb f (l ++ [x]) = true.
+Proof. intros H1 H2. rewrite forallb_app, H1. cbn. rewrite H2. reflexivity. Qed.
+
+Theorem loaded_nodes_good early evs :
+  match load_r early evs with GOk s => Forall (good early) (g_docs s) | GPanic _ => True end.
+Proof.
+  assert (H : RR ryaml ryaml (fun a b => a = b /\ good early a) (load_r early evs) (load_r early evs)).
+  { unfold load_r. apply sim_load; [| | | | | | | |apply SR_g0]; unfold good.
+    - intros v st tg sp. split; [reflexivity|]. cbn [r_ops o_scalar]. destruct early; [|split; reflexivity].
+      destruct (scalar_value v st tg); split; reflexivity.
+    - intros sp. split; [reflexivity|]. destruct early; split; reflexivity.
+    - intros sp. split; [reflexivity|]. destruct early; split; reflexivity.
+    - intros sp. split; [reflexivity|]. destruct early; split; reflexivity.
+    - intros a b sp H. exact H.
+    - intros a b [H _]. subst b. reflexivity.
+    - intros a b x y [Ha [Wa Ga]] [Hx [Wx Gx]] Hk. subst b y. split; [reflexivity|].
+      destruct a as [| |l| |]; try discriminate Hk. cbn [r_ops o_push]. cbn [r_wf] in Wa. split.
+      + cbn [r_wf]. apply forallb_snoc; assumption.
+      + destruct early; [cbn [r_resolved] in *|cbn [r_deferred] in *]; apply forallb_snoc; assumption.
+    - intros a b k k' v v' [Ha [Wa Ga]] [Hk [Wk Gk]] [Hv [Wv Gv]] Hkind. subst b k' v'. split; [reflexivity|].
+      destruct a as [| | |l|]; try discriminate Hkind. cbn [r_ops o_insert].
+      rewrite r_wf_map in Wa. apply andb_true_iff in Wa. destruct Wa as [Wn Wp]. split.
+      + rewrite r_wf_map. apply andb_true_iff. split; [apply nodupb_ins; try req; exact Wn|].
+        apply pairs_all_insert; assumption.
+      + destruct early; [rewrite r_resolved_map in *|rewrite r_deferred_map in *]; apply pairs_all_insert; assumption. }
+  destruct (load_r early evs) as [s|n]; [|exact I]. destruct H as [Hd _].
+  revert Hd. generalize (g_docs s). intros l Hd.
+  remember l as l' eqn:E in Hd at 2. clear E.
+  induction Hd as [|a b l l' [_ G] _ IH]; constructor; assumption.
+Qed.
+
+Corollary resolve_leaves_eager_untouched evs :
+  match load_r true evs with GOk s => map r_resolve (g_docs s) = g_docs s | GPanic _ => True end.
+Proof.
+  pose proof (loaded_nodes_good true evs) as H. destruct (load_r true evs) as [s|n]; [|exact I].
+  induction H as [|x l [W R] _ IH]; [reflexivity|]. cbn [map]. rewrite IH, (r_resolve_id x R W). reflexivity.
+Qed.
+
+(* ---------------------------------------------------------------------------------------------- *)
+(* the sharper statement with Leibniz equality is FALSE: when resolution identifies keys, the key  *)
+(* object kept can differ (0.0 / -0.0 / 0.0 as keys: eager keeps +0.0, deferred+resolved -0.0);    *)
+(* it holds whenever resolution is injective on the keys of every mapping                          *)
+(* ---------------------------------------------------------------------------------------------- *)
+Definition sp0 : span := span_empty {| m_index := 0; m_line := 0; m_col := 0 |}.
+Definition plain (s : str) : event * span := (EScalar s Plain 0 None, sp0).
+Definition zero_keys : list (event * span) :=
+  [(EStreamStart, sp0); (EDocumentStart false, sp0); (EMappingStart 0 None, sp0);
+   plain [48;46;48]%N; plain [97]%N; plain [45;48;46;48]%N; plain [98]%N; plain [48;46;48]%N; plain [99]%N;
+   (EMappingEnd, sp0); (EDocumentEnd, sp0); (EStreamEnd, sp0)].
+
+Definition deferred_resolved_equals_eager_leibniz : Prop :=
+  forall evs, option_map (map r_resolve) (docs_of (load_r false evs)) = docs_of (load_r true evs).
+
+Theorem deferred_resolved_equals_eager_leibniz_refuted : ~ deferred_resolved_equals_eager_leibniz.
+Proof. intros H. specialize (H zero_keys). vm_compute in H. discriminate H. Qed.
